@@ -16,13 +16,22 @@
 #ifndef VERIF_REPLAY
 /* ---- CBMC side ---- */
 unsigned long long nondet_ull(void);
-/* every input passes through here: the driver reads the sequence of `v`
- * assignments in this function from the counterexample trace */
+# ifndef V_NMAX
+#  define V_NMAX 64
+# endif
+/* every input passes through here.  The value is stored in V_LOG[k] and read
+ * back from there, so that (even with --slice-formula) the counterexample trace
+ * contains the assignment "V_LOG[k] = value" for every input the failing
+ * property depends on; the driver reads (k, value) pairs from the trace. */
+static unsigned long long V_LOG[V_NMAX];
+static unsigned v_cnt;
 static unsigned long long v_in_raw(const char *name)
 {
-	unsigned long long v = nondet_ull();
+	unsigned k = v_cnt++;
 	(void) name;
-	return v;
+	__CPROVER_assert(k < V_NMAX, "harness: input log large enough (raise V_NMAX)");
+	V_LOG[k] = nondet_ull();
+	return V_LOG[k];
 }
 # define V_ASSUME(c)       __CPROVER_assume(c)
 # ifdef WITNESS
@@ -36,24 +45,31 @@ static unsigned long long v_in_raw(const char *name)
 # include <stdio.h>
 # include <stdlib.h>
 # include <string.h>
-static FILE *v_in_file;
+static unsigned long long v_tab[4096];
+static unsigned char v_have[4096];
+static int v_loaded;
+static unsigned v_cnt;
 static unsigned long long v_in_raw(const char *name)
 {
-	char line[128];
-	if (!v_in_file) {
+	unsigned k = v_cnt++;
+	if (!v_loaded) {
+		char line[4096];
 		const char *fn = getenv("VERIF_REPLAY_FILE");
-		if (!fn || !(v_in_file = fopen(fn, "r"))) {
+		FILE *f;
+		if (!fn || !(f = fopen(fn, "r"))) {
 			fprintf(stderr, "REPLAY: no input file\n");
 			exit(3);
 		}
+		while (fgets(line, sizeof(line), f)) {
+			unsigned idx; unsigned long long val;
+			if (line[0] == '#' || line[0] == '\n') continue;
+			if (sscanf(line, "%u %llu", &idx, &val) == 2 && idx < 4096) { v_tab[idx] = val; v_have[idx] = 1; }
+		}
+		fclose(f);
+		v_loaded = 1;
 	}
-	while (fgets(line, sizeof(line), v_in_file)) {
-		if (line[0] == '#' || line[0] == '\n') continue;
-		if (getenv("VERIF_REPLAY_VERBOSE")) fprintf(stderr, "REPLAY: %s = %s", name, line);
-		return strtoull(line, 0, 0);
-	}
-	fprintf(stderr, "REPLAY: input exhausted at '%s' (native run diverged from trace)\n", name);
-	exit(4);
+	if (getenv("VERIF_REPLAY_VERBOSE")) fprintf(stderr, "REPLAY-IN: %u %s %llu%s\n", k, name, k < 4096 ? v_tab[k] : 0, (k < 4096 && v_have[k]) ? "" : " (not in trace: irrelevant to the failing check, 0 used)");
+	return k < 4096 ? v_tab[k] : 0;
 }
 # define V_ASSUME(c)       do { if (!(c)) { fprintf(stderr, "REPLAY: assumption failed: %s (line %d)\n", #c, __LINE__); exit(77); } } while (0)
 # define V_ASSERT(c, msg)  do { if (!(c)) { fprintf(stderr, "REPLAY: ASSERTION FAILED: %s [%s] (line %d)\n", msg, #c, __LINE__); exit(1); } } while (0)
